@@ -281,7 +281,9 @@ func resultDecl(f fn, named bool, corpus bool) string {
 	return " (" + strings.Join(s, ", ") + ")"
 }
 
-func funcTypeG(f fn) string { return "func(" + paramDeclG(f, false) + ")" + resultDecl(f, false, false) }
+func funcTypeG(f fn) string {
+	return "func(" + paramDeclG(f, false) + ")" + resultDecl(f, false, false)
+}
 
 func argList(f fn) string {
 	var s []string
